@@ -219,6 +219,13 @@ func runMonitorCheck(rc *RunCtx, rep *Report, scs []*Scenario,
 				vf := viewOf(from)
 				vt := viewOf(to)
 				judged++
+				if os.Getenv("VERIF_DEBUG_T") != "" {
+					for id, c := range vt.Cfgs {
+						if cfgValuesText(vf.Cfgs[id]) != cfgValuesText(c) {
+							fmt.Printf("DBG %s: %s values %q -> %q committed %d aux=%q\n", sc.Name, tr.String(), cfgValuesText(vf.Cfgs[id]), cfgValuesText(c), c.Status.Committed.Index, from.aux)
+						}
+					}
+				}
 				if res != nil {
 					for _, l := range res.DevLog {
 						devReqs += len(l)
